@@ -27,6 +27,10 @@ Step == /\ l <= Len(TraceLog)
         /\ LET ev == TraceLog[l]
                ex == IF ev.op = "scenario"
                      THEN [st |-> InitSt, ok |-> TRUE, why |-> ""]
+                     \* a call during which the process died, or which did not return (recorded by the
+                     \* executor's supervisor): no specification of this library allows that
+                     ELSE IF "crashed" \in DOMAIN ev
+                     THEN [st |-> st, ok |-> FALSE, why |-> "call did not return: " \o ev.crashed]
                      ELSE Expect(st, ev)
            IN /\ st' = ex.st
               /\ bad' = IF ex.ok THEN bad
